@@ -30,7 +30,7 @@ def wrap(qual, meth, params, margs, table):
     C[qual + ".__init__"] = dict(
         params=params, raises=raises,
         ensures=f"SAME_TEXT(TEXT(self), TEXT(METHOD(TP(pre), '{meth}'{''.join(', ' + a for a in margs)})))",
-        returns="none", frame=["self._Pregex__pattern", "self._Pregex__type", "self._Pregex__repeatable", "self._Pregex__compiled"])
+        returns="wrapped_init", value=f"METHOD(TP(pre), '{meth}'{''.join(', ' + a for a in margs)})", frame=["self._Pregex__pattern", "self._Pregex__type", "self._Pregex__repeatable", "self._Pregex__compiled"])
 
 
 Q = "pregex.core.quantifiers."
@@ -54,7 +54,7 @@ for cls, meth in (("MatchAtStart", "match_at_start"), ("MatchAtEnd", "match_at_e
     wrap(A + cls, meth, dict(NP), [], pre_ops.C)
 for cls, txt in (("WordBoundary", "\\\\b"), ("NonWordBoundary", "\\\\B")):
     C[A + cls + ".__init__"] = dict(params={"self": "newobj"}, raises={}, ensures=f"SAME_TREE(TEXT(self), '{txt}')",
-                                    returns="none", frame=["self._Pregex__pattern", "self._Pregex__type", "self._Pregex__repeatable", "self._Pregex__compiled"])
+                                    returns="wrapped_init", value=f"'{txt}'", frame=["self._Pregex__pattern", "self._Pregex__type", "self._Pregex__repeatable", "self._Pregex__compiled"])
 
 FR = ["self._Pregex__pattern", "self._Pregex__type", "self._Pregex__repeatable", "self._Pregex__compiled"]
 O = "pregex.core.operators."
@@ -62,12 +62,13 @@ for cls, meth in (("Concat", "concat"), ("Either", "either")):
     C[O + cls + ".__init__"] = dict(
         params={"self": "newobj", "pres": "varpre"},
         raises={"InvalidArgumentTypeException": f"len(pres) > 0 and FOLD_EXC(pres, '{meth}') == 'InvalidArgumentTypeException'"},
-        ensures=f"SAME_TEXT(TEXT(self), FOLD(pres, '{meth}'))", returns="none", frame=FR)
+        ensures=f"SAME_TEXT(TEXT(self), FOLD(pres, '{meth}'))", returns="wrapped_init", value=f"FOLDV(pres, '{meth}')", frame=FR)
 C[O + "Enclose.__init__"] = dict(
     params={"self": "newobj", "pre": ["Other", "Alternation", "Empty", "Quantifier", "str0", "str2", "other"],
             "enclosing": "varpre_small"},
     raises={"InvalidArgumentTypeException": "FOLD_EXC((pre,) + enclosing, 'enclose') == 'InvalidArgumentTypeException'"},
-    ensures="SAME_TEXT(TEXT(self), FOLD((pre,) + enclosing, 'enclose'))", returns="none", frame=FR)
+    ensures="SAME_TEXT(TEXT(self), FOLD((pre,) + enclosing, 'enclose'))", returns="wrapped_init",
+    value="FOLDV((pre,) + enclosing, 'enclose')", frame=FR)
 
 for cls, meth in (("FollowedBy", "followed_by"), ("PrecededBy", "preceded_by"), ("EnclosedBy", "enclosed_by"),
                   ("NotFollowedBy", "not_followed_by"), ("NotPrecededBy", "not_preceded_by"), ("NotEnclosedBy", "not_enclosed_by")):
@@ -77,7 +78,8 @@ for cls, meth in (("FollowedBy", "followed_by"), ("PrecededBy", "preceded_by"), 
     C[A + cls + ".__init__"] = dict(
         params={"self": "newobj", "match": ["Other", "Alternation", "Empty", "Assertion", "str0", "str2", "other"],
                 "assertions": "varpre_small"}, raises=raises,
-        ensures=f"SAME_TEXT(TEXT(self), FOLD((match,) + assertions, '{meth}'))", returns="none", frame=FR)
+        ensures=f"SAME_TEXT(TEXT(self), FOLD((match,) + assertions, '{meth}'))", returns="wrapped_init",
+        value=f"FOLDV((match,) + assertions, '{meth}')", frame=FR)
 
 # ---- Backreference / Conditional -------------------------------------------------------------------------------
 C[G + "Backreference.__init__"] = dict(
